@@ -28,7 +28,7 @@ CHECKS = {
             "trusted: substrate with crash injection; prefix model of the user-block write; SHA-256 idealised; kills inside HDF5 library writes and fsync/reordering effects are outside; torn-write counterexamples replayed on real h5py files",
             "4/C11"),
     "C06": ("CrossHair/z3 exploration of all bounded sequences of container actions (symbolic action choices realised by solver-driven branching) on the real MetadorContainer/MetadorMeta/TOCLinks/TOCSchemas/TOCPackages stack over the in-memory substrate, both drivers, with patch boundaries and reopen points; after every action raw-tree bookkeeping invariants + reference model; counterexamples replayed on real h5py files",
-            "trusted: substrate (conformance-tested); the real code runs natively once choices are concrete (the TOC stack cannot be traced by CrossHair: DESIGN 9); bounds: 29 actions, sequences of 3 (plain driver) / 2 (IH5), three installed schemas, start state d, g, g/e",
+            "trusted: substrate (conformance-tested); the real code runs natively once choices are concrete (the TOC stack cannot be traced by CrossHair: DESIGN 9); bounds: 32 actions, sequences of 3 (plain driver) / 2 (IH5), three installed schemas, start state d, g, g/e",
             "9 (deviation), 4/C06"),
     "C07": ("CrossHair/z3: symbolic schema versions through the real MetadorMeta.query/_get_raw + TOCSchemas.versions/children + PluginRef.supports against a brute-force specification; plus bounded container action sequences (C06 harness) with a reference model of attached metadata (equality of returned objects, parent views, one per schema, exact queries)",
             "trusted: stand-in node/TOCSchemas for the kernel; substrate for sequences; bounds: versions in {0,1}^2 per ref, sequences of 2 actions on both drivers",
